@@ -38,7 +38,7 @@ class CtxMgrNone:
     suppress = None
 
 # platform constants (POSIX; the Windows branches are not taken -- stated assumption)
-EXTERN_CONSTS = {"os.name": "posix", "os.sep": "/", "posixpath.sep": "/", "os.path.sep": "/"}
+EXTERN_CONSTS = {"os.name": "posix", "os.sep": "/", "posixpath.sep": "/", "os.path.sep": "/", "errno.ENOENT": 2}
 
 
 class ExternMethod:
